@@ -116,10 +116,10 @@ type exec struct {
 var storeDir string // non-empty: file store under this directory
 
 type scenario struct {
-	name    string
-	senders []int // sends per sender thread
-	session func(x *exec)
-	history []string // message types sent before the scenario starts (after the Logon), built through the real path
+	name      string
+	senders   []int // sends per sender thread
+	session   func(x *exec)
+	history   []string // message types sent before the scenario starts (after the Logon), built through the real path
 	noPersist bool
 }
 
@@ -211,13 +211,13 @@ func setup(sc scenario) *exec {
 }
 
 type result struct {
-	x        *exec
-	choices  []int
-	points   []vsync.PointInfo
-	sched    []string
-	dead     bool
-	horizon  bool
-	engine   string
+	x       *exec
+	choices []int
+	points  []vsync.PointInfo
+	sched   []string
+	dead    bool
+	horizon bool
+	engine  string
 }
 
 // runFree runs the same thread bodies as real goroutines with the shim in pass-through mode (for -race).
@@ -280,7 +280,9 @@ func runWith(sc scenario, prefix []int, free bool) (res result) {
 		sc.session(x)
 		// drain phase: keep serving the flush token until the senders are done and no token is left
 		for {
-			vsync.Await(func() bool { return int(atomic.LoadInt32(&x.sendersDone)) == nSenders || vsync.Len(x.vs.MessageEventChan()) > 0 })
+			vsync.Await(func() bool {
+				return int(atomic.LoadInt32(&x.sendersDone)) == nSenders || vsync.Len(x.vs.MessageEventChan()) > 0
+			})
 			if _, ok := vsync.TryRecv(x.vs.MessageEventChan()); ok {
 				x.vs.SendAppMessages()
 				continue
